@@ -157,6 +157,7 @@ class CFGBuilder(AstVisitor[BB | None]):
         """Utility method for building a node containing a `value` expression.
 
         Builds the expression and mutates `node.value` to point to the built expression.
+        The same is done for the targets of assignment statements.
         Returns the BB in which the expression is available and adds the node to it.
         """
         if (
@@ -164,6 +165,13 @@ class CFGBuilder(AstVisitor[BB | None]):
             and node.value is not None
         ):
             node.value, bb = ExprBuilder.build(node.value, self.cfg, bb)
+        # Assignment targets can contain arbitrary expressions as well, for example the
+        # index in `xs[i if b else j] = 0`. Those also need to be built.
+        if isinstance(node, ast.Assign):
+            for i, target in enumerate(node.targets):
+                node.targets[i], bb = ExprBuilder.build(target, self.cfg, bb)
+        elif isinstance(node, ast.AugAssign | ast.AnnAssign):
+            node.target, bb = ExprBuilder.build(node.target, self.cfg, bb)
         bb.statements.append(node)
         return bb
 
